@@ -474,40 +474,10 @@ pub fn gen_planner(out: &mut dyn Write, seed: u64, thorough: bool) {
             }
             _ => 0,
         };
-        let list = list_from_mask(mask);
-        let d2 = d.clone();
-        vh::prune_log_enable(true);
-        let _ = vh::prune_perm_take();
-        let r = guarded(move || vh::optimize(&d2, written, datamatrix::EncodationType::Ascii, &list, modes_from_bits(modes)));
-        let perms = vh::prune_perm_take();
-        let _ = vh::prune_log_take();
-        vh::prune_log_enable(false);
-        let tr = vh::planner_trace();
-        calls += perms.len();
-        let ps = if perms.is_empty() {
-            "_".to_string()
-        } else {
-            perms
-                .iter()
-                .map(|p| if p.is_empty() { "-".to_string() } else { p.iter().map(|i| i.to_string()).collect::<Vec<_>>().join(",") })
-                .collect::<Vec<_>>()
-                .join("|")
-        };
-        let ans = match r {
-            Ok(Some(p)) => {
-                *outcomes.entry("plan".into()).or_default() += 1;
-                format!("{}:{}:{}:{}", plan_str(&Some(p)), tr.chosen_cost_ceil_12.unwrap_or(0), tr.steps, tr.max_live)
-            }
-            Ok(None) => {
-                *outcomes.entry("none".into()).or_default() += 1;
-                format!("none:{}:{}", tr.steps, tr.max_live)
-            }
-            Err(_) => {
-                *outcomes.entry("panic".into()).or_default() += 1;
-                "panic".into()
-            }
-        };
-        writeln!(out, "M optimize {} {} {} {} {} => {}", modes, mask_hex(mask), written, hex(&d), ps, ans).unwrap();
+        let (line, kind, ncalls) = planner_line(modes, mask, written, &d);
+        *outcomes.entry(kind.into()).or_default() += 1;
+        calls += ncalls;
+        writeln!(out, "{}", line).unwrap();
     }
     for (k, v) in &outcomes {
         writeln!(out, "# planner_outcome_{} {}", k, v).unwrap();
@@ -516,4 +486,33 @@ pub fn gen_planner(out: &mut dyn Write, seed: u64, thorough: bool) {
     for (k, v) in &hist {
         writeln!(out, "# {} {}", k, v).unwrap();
     }
+}
+
+/// one planner-model correspondence line (also used to replay a single case: `dmh opt ..`)
+pub fn planner_line(modes: u8, mask: u64, written: usize, d: &[u8]) -> (String, &'static str, usize) {
+    use datamatrix::verif_hooks as vh;
+    let list = list_from_mask(mask);
+    let d2 = d.to_vec();
+    vh::prune_log_enable(true);
+    let _ = vh::prune_perm_take();
+    let r = guarded(move || vh::optimize(&d2, written, datamatrix::EncodationType::Ascii, &list, modes_from_bits(modes)));
+    let perms = vh::prune_perm_take();
+    let _ = vh::prune_log_take();
+    vh::prune_log_enable(false);
+    let tr = vh::planner_trace();
+    let ps = if perms.is_empty() {
+        "_".to_string()
+    } else {
+        perms
+            .iter()
+            .map(|p| if p.is_empty() { "-".to_string() } else { p.iter().map(|i| i.to_string()).collect::<Vec<_>>().join(",") })
+            .collect::<Vec<_>>()
+            .join("|")
+    };
+    let (ans, kind) = match r {
+        Ok(Some(p)) => (format!("{}:{}:{}:{}", plan_str(&Some(p)), tr.chosen_cost_ceil_12.unwrap_or(0), tr.steps, tr.max_live), "plan"),
+        Ok(None) => (format!("none:{}:{}", tr.steps, tr.max_live), "none"),
+        Err(_) => ("panic".to_string(), "panic"),
+    };
+    (format!("M optimize {} {} {} {} {} => {}", modes, mask_hex(mask), written, hex(d), ps, ans), kind, perms.len())
 }
